@@ -333,6 +333,27 @@ impl Gen {
     }
   }
 
+  /// replay of the known finding `cleanup-event-lost-when-forwarding-fails` (C05, C18): the last connection of a
+  /// member ends while the modulator refuses the forwarded MEMBER_LEFT event
+  pub fn plan_kf_cleanup(&mut self) {
+    self.mode = "kf_cleanup".into();
+    for (i, u) in ["alice", "bob"].iter().enumerate() {
+      let k = i + 1;
+      self.plan.push_back((Op::Open, Self::ok_env()));
+      self.conns.insert(k, GConn { phase: 2, user: Some(u.to_string()), open: true });
+      self.plan.push_back((Op::Recv(k, Req::Connect { version: 1, hb: 0 }), Self::ok_env()));
+      self.plan.push_back((Op::Recv(k, Req::Identify { username: u.to_string() }), Self::ok_env()));
+      let id = self.id();
+      self.plan.push_back((Op::Recv(k, Req::Join { id, chan: "!c1@localhost".into(), ob: None }), Self::ok_env()));
+    }
+    self.next_conn = 3;
+    let mut e = Self::ok_env();
+    e.ev_ok = false;
+    self.plan.push_back((Op::Close(2), e));
+    let id = self.id();
+    self.plan.push_back((Op::Recv(1, Req::Members { id, chan: "!c1@localhost".into(), page: None, size: None }), Self::ok_env()));
+  }
+
   fn plan_acl_round(&mut self) {
     let chan = "!c1@localhost".to_string();
     let ty = *self.rng.pick(&["join", "publish", "read", "read"]);
@@ -487,7 +508,8 @@ impl Gen {
     }
     let k = *self.rng.pick(&open);
     let c = self.conns[&k].clone();
-    if self.rng.chance(1, 45) {
+    let churn = self.mode == "churn";
+    if self.rng.chance(1, if churn && c.phase == 2 { 10 } else { 45 }) {
       self.bump("close");
       return (Op::Close(k), env);
     }
@@ -515,6 +537,7 @@ impl Gen {
               1 => AuthS::Continue("ch4llenge".into()),
               2 => AuthS::Failed,
               3 => AuthS::Success((*self.rng.pick(ODD_USERS)).into()),
+              _ if churn => AuthS::Success((*self.rng.pick(&USERS[..3])).into()),
               _ => AuthS::Success((*self.rng.pick(USERS)).into()),
             });
             self.bump("auth");
@@ -524,16 +547,79 @@ impl Gen {
           }
         } else if self.rng.chance(9, 10) {
           self.bump("identify");
-          let username: String =
-            if self.rng.chance(1, 6) { (*self.rng.pick(ODD_USERS)).into() } else { (*self.rng.pick(USERS)).into() };
+          let username: String = if churn {
+            (*self.rng.pick(&USERS[..3])).into()
+          } else if self.rng.chance(1, 6) {
+            (*self.rng.pick(ODD_USERS)).into()
+          } else {
+            (*self.rng.pick(USERS)).into()
+          };
           Req::Identify { username }
         } else {
           self.pre_auth_noise()
         }
       },
+      _ if churn => self.churn_req(&mut env, view, c.user.as_deref().unwrap_or("")),
       _ => self.authed_req(&mut env, view, c.user.as_deref().unwrap_or("")),
     };
     (Op::Recv(k, req), env)
+  }
+
+  /// scenario `churn`: three users, two channels; kicks, disconnects, same-name reconnects, hand-overs and
+  /// broadcasts dominate, so that stale membership / stale index / ghost-member histories are dense
+  fn churn_req(&mut self, env: &mut EnvS, view: &crate::oracle::Oracle, me: &str) -> Req {
+    let id = self.id();
+    let dom = self.cfg.domain.clone();
+    let chans = ["c1", "c2"];
+    let mine: Vec<String> = view.members.iter().filter(|(_, m)| m.contains(me)).map(|(h, _)| h.clone()).collect();
+    let owned: Vec<String> = mine.iter().filter(|h| view.owner.get(*h).map(|o| o.as_str()) == Some(me)).cloned().collect();
+    let full = |h: &str| format!("!{h}@{dom}");
+    let r = if mine.is_empty() && self.rng.chance(3, 5) { 0 } else { self.rng.below(100) };
+    let req = if r < 18 {
+      let h = *self.rng.pick(&chans);
+      Req::Join { id, chan: full(h), ob: None }
+    } else if r < 28 && !owned.is_empty() {
+      // owner joins a connected user
+      let h = self.rng.pick(&owned).clone();
+      let u = *self.rng.pick(&USERS[..3]);
+      Req::Join { id, chan: full(&h), ob: Some(format!("{u}@{dom}")) }
+    } else if r < 44 && !owned.is_empty() {
+      // owner removes a member (sometimes itself, sometimes a non-member)
+      let h = self.rng.pick(&owned).clone();
+      let ms: Vec<String> = view.members.get(&h).map(|s| s.iter().cloned().collect()).unwrap_or_default();
+      let u = if self.rng.chance(1, 6) || ms.is_empty() { (*self.rng.pick(&USERS[..3])).to_string() } else { self.rng.pick(&ms).clone() };
+      Req::Leave { id, chan: full(&h), ob: Some(format!("{u}@{dom}")) }
+    } else if r < 52 {
+      let h = if !mine.is_empty() && self.rng.chance(4, 5) { self.rng.pick(&mine).clone() } else { (*self.rng.pick(&chans)).to_string() };
+      Req::Leave { id, chan: full(&h), ob: None }
+    } else if r < 80 {
+      let h = if !mine.is_empty() && self.rng.chance(5, 6) { self.rng.pick(&mine).clone() } else { (*self.rng.pick(&chans)).to_string() };
+      if self.cfg.modulator.is_some() {
+        env.verdict = Some(VerdictS::Valid);
+      }
+      let payload = format!("m{id}").into_bytes();
+      Req::Broadcast { id, chan: full(&h), qos: None, payload }
+    } else if r < 88 {
+      Req::Channels { id, page: None, size: None, owner: self.rng.chance(1, 3) }
+    } else if r < 96 {
+      let h = if !mine.is_empty() && self.rng.chance(2, 3) { self.rng.pick(&mine).clone() } else { (*self.rng.pick(&chans)).to_string() };
+      Req::Members { id, chan: full(&h), page: None, size: None }
+    } else {
+      let h = (*self.rng.pick(&chans)).to_string();
+      Req::GetConfig { id, chan: full(&h) }
+    };
+    let name = match &req {
+      Req::Join { ob: Some(_), .. } => "join-onbehalf",
+      Req::Join { .. } => "join",
+      Req::Leave { ob: Some(_), .. } => "leave-onbehalf",
+      Req::Leave { .. } => "leave",
+      Req::Broadcast { .. } => "broadcast",
+      Req::Members { .. } => "members",
+      Req::Channels { .. } => "channels",
+      _ => "getconfig",
+    };
+    self.bump(name);
+    req
   }
 
   fn pre_auth_noise(&mut self) -> Req {
@@ -763,11 +849,20 @@ pub async fn run_case(cfg: SrvCfg, rng: Rng, max_steps: usize, mode: &str) -> (C
   if mode == "acl" {
     g.plan_acl_setup();
   }
+  if mode == "churn" {
+    g.mode = "churn".into();
+  }
+  if mode == "kf_cleanup" {
+    g.plan_kf_cleanup();
+  }
   let mut transcript = String::new();
   let mut seen = BTreeMap::new();
   let mut steps = 0;
   let mut oracle = crate::oracle::Oracle::new(&cfg);
   while steps < max_steps {
+    if g.mode.starts_with("kf_") && g.plan.is_empty() {
+      break;
+    }
     let (op, env) = g.next(&oracle);
     if let Op::Recv(_, r) = &op {
       if r.wire().is_none() {
@@ -817,11 +912,11 @@ pub async fn run_case(cfg: SrvCfg, rng: Rng, max_steps: usize, mode: &str) -> (C
       }
     }
     // a scenario whose scripted connections died has nothing left to say
-    if g.mode != "random" && closed_any {
+    if g.mode == "acl" && closed_any {
       break;
     }
     // without visible hand-over events the owner oracle is blind: end the history here
-    if !env.ev_ok && (closed_any || matches!(op, Op::Close(_) | Op::Recv(_, Req::Leave { .. }))) {
+    if !env.ev_ok && !g.mode.starts_with("kf_") && (closed_any || matches!(op, Op::Close(_) | Op::Recv(_, Req::Leave { .. }))) {
       break;
     }
   }
@@ -847,6 +942,17 @@ pub fn scenario_cfg(rng: &mut Rng, mode: &str) -> SrvCfg {
     cfg.max_clients = *rng.pick(&[3u32, 4, 5, 8, 100]);
     cfg.max_payload = cfg.max_payload.max(64);
     cfg.modulator = rng.pick(&[None, None, Some(vec![Operation::ForwardBroadcastPayload]), Some(vec![Operation::Auth])]).clone();
+  }
+  if mode == "kf_cleanup" {
+    cfg = SrvCfg::default();
+    cfg.modulator = Some(vec![Operation::ForwardEvent]);
+  }
+  if mode == "churn" {
+    cfg.max_channels = *rng.pick(&[2u32, 3, 50]);
+    cfg.max_clients = *rng.pick(&[2u32, 3, 100]);
+    cfg.max_subs = *rng.pick(&[1u32, 2, 2, 100]);
+    cfg.max_payload = 64;
+    cfg.modulator = rng.pick(&[None, None, None, Some(vec![Operation::ForwardEvent]), Some(vec![Operation::Auth])]).clone();
   }
   cfg
 }
